@@ -60,7 +60,7 @@ func (ms msgServer) UpdateProvider(goCtx context.Context, msg *types.MsgUpdatePr
 	}
 
 	owner, _ := sdk.AccAddressFromBech32(msg.Owner)
-	prov, found := ms.provider.Get(ctx, owner)
+	_, found := ms.provider.Get(ctx, owner)
 	if !found {
 		return nil, errors.Wrapf(types.ErrProviderNotFound, "id: %s", msg.Owner)
 	}
@@ -68,7 +68,8 @@ func (ms msgServer) UpdateProvider(goCtx context.Context, msg *types.MsgUpdatePr
 	// all filtering code below is madness!. should make an index to not melt the cpu
 	// TODO: use WithActiveLeases, filter by lease.Provider
 	ms.market.WithLeases(ctx, func(lease mtypes.Lease) bool {
-		if prov.Owner == lease.ID().Provider && (lease.State == mtypes.LeaseActive) {
+		// leases carry the canonical text of the provider's address; the stored owner text may be spelled differently
+		if owner.String() == lease.ID().Provider && (lease.State == mtypes.LeaseActive) {
 			var order mtypes.Order
 			order, found = ms.market.GetOrder(ctx, lease.ID().OrderID())
 			if !found {
